@@ -199,7 +199,15 @@ namespace awkward {
 
   const FormPtr
   UnmaskedForm::simplify_optiontype() const {
-    if (dynamic_cast<IndexedForm*>(content_.get())         ||
+    if (dynamic_cast<IndexedForm*>(content_.get())) {
+      IndexedOptionForm step1(has_identities_,
+                              parameters_,
+                              form_key_,
+                              Index::Form::i64,
+                              content_);
+      return step1.simplify_optiontype();
+    }
+    else if (
         dynamic_cast<IndexedOptionForm*>(content_.get())   ||
         dynamic_cast<ByteMaskedForm*>(content_.get())      ||
         dynamic_cast<BitMaskedForm*>(content_.get())       ||
@@ -253,7 +261,14 @@ namespace awkward {
   UnmaskedArray::simplify_optiontype() const {
     if (dynamic_cast<IndexedArray32*>(content_.get())        ||
         dynamic_cast<IndexedArrayU32*>(content_.get())       ||
-        dynamic_cast<IndexedArray64*>(content_.get())        ||
+        dynamic_cast<IndexedArray64*>(content_.get())) {
+      // not an option type: the option must not be dropped with the node
+      ContentPtr step1 = toIndexedOptionArray64();
+      IndexedOptionArray64* step2 =
+        dynamic_cast<IndexedOptionArray64*>(step1.get());
+      return step2->simplify_optiontype();
+    }
+    else if (
         dynamic_cast<IndexedOptionArray32*>(content_.get())  ||
         dynamic_cast<IndexedOptionArray64*>(content_.get())  ||
         dynamic_cast<ByteMaskedArray*>(content_.get())       ||
